@@ -8,6 +8,7 @@ import (
 	"flag"
 	"fmt"
 	"os"
+	"reflect"
 	"runtime"
 	"sort"
 	"sync"
@@ -106,13 +107,22 @@ func cmdReaders(args []string) {
 		d := g.Dynamic(md)
 		shared := mt.New().Interface()
 		proj.Fill(proj.Impl(shared), proj.Project(d.ProtoReflect(), proj.WrapNone), proj.WrapImpl)
-		twin := proto.Clone(shared)
-		// sequential results first (on a separate clone, so that the shared message has not even
-		// been read before the goroutines start: lazy initialisation happens concurrently)
-		seqm := proto.Clone(shared)
+		if i%2 == 1 {
+			plantNil(reflect.ValueOf(shared)) // nil map values / list elements / oneof payloads
+		}
+		// the comparison twin and the sequential results are built WITHOUT touching the generated
+		// code's own methods before the goroutines start (dynamicpb twin; struct-level fill), so
+		// that the very first use of the type's fast paths in this process is the concurrent one
+		twin := proto.Message(d)
 		want := map[string]string{}
-		for _, k := range names {
-			want[k] = readOps[k](seqm, twin)
+		computeWant := func() {
+			seqm := proto.Clone(shared)
+			for _, k := range names {
+				want[k] = readOps[k](seqm, twin)
+			}
+		}
+		if i > 0 {
+			computeWant()
 		}
 		// all assignments of 2 operations to each of 3 goroutines would be 11^6; take a rotating
 		// selection that covers every unordered pair of operations
@@ -140,6 +150,9 @@ func cmdReaders(args []string) {
 				close(start)
 				wg.Wait()
 				runs++
+				if len(want) == 0 {
+					computeWant() // first message of the process: sequential results only now
+				}
 				var mism []string
 				for t := range assign {
 					for j, op := range assign[t] {
